@@ -1,7 +1,7 @@
 (* Props/C11.v -- statements claimed for C11 (refine_), about Model/TriaRefine.v. *)
 From Coq Require Import List Arith Reals.
 From LaPyV Require Import Base.Scalar Base.Vec3 Base.ListAux Model.TetMesh Model.TriaAdj Model.TriaRefine
-  Proofs.TriaAdjP Proofs.TriaRefineP.
+  Proofs.TriaAdjP Proofs.TriaRefineP Proofs.RefineTopoP.
 Import ListNotations.
 Close Scope R_scope.
 
@@ -81,3 +81,42 @@ Print Assumptions C11_refine_is_iterated_single_step.
 Theorem C11_refine_zero_is_identity : forall (K : Type) (o : Ops K) m, refine o 0 m = m.
 Proof. exact @refine_zero. Qed.
 Print Assumptions C11_refine_zero_is_identity.
+
+(* ---- topology.  For every mesh (any topology, several components, boundary or not) with distinct vertices per triangle, all
+   indices below the vertex count, and no two triangles on the same three vertices ([simplicial]): the refined mesh is oriented /
+   edge-manifold / closed exactly when the original is.  Proved through exact half-edge counts of the children (RefineTopoP). *)
+Theorem C11_refinement_keeps_orientedness_manifoldness_closedness : forall (K : Type) (o : Ops K) v ts,
+  Forall distinct_tri ts -> in_range (length v) ts -> simplicial ts ->
+  is_oriented (snd (refine1 o (v, ts))) = is_oriented ts /\
+  is_manifold (snd (refine1 o (v, ts))) = is_manifold ts /\
+  is_closed (snd (refine1 o (v, ts))) = is_closed ts.
+Proof. exact @refine1_topology. Qed.
+Print Assumptions C11_refinement_keeps_orientedness_manifoldness_closedness.
+
+(* closedness needs no hypothesis on repeated vertex sets *)
+Theorem C11_refinement_keeps_closedness : forall (K : Type) (o : Ops K) v ts,
+  Forall distinct_tri ts -> in_range (length v) ts -> is_closed (snd (refine1 o (v, ts))) = is_closed ts.
+Proof. exact @refine1_closed. Qed.
+Print Assumptions C11_refinement_keeps_closedness.
+
+(* the half-edge from an old vertex x to the new vertex on the parent edge {x, q} is traversed as often as x -> q *)
+Theorem C11_half_edges_of_children : forall n ts, Forall distinct_tri ts -> in_range n ts -> forall x y, x < n -> n <= y ->
+  hedge_count (flat_map (children n (edge_list ts)) ts) x y =
+    match nth_error (edge_list ts) (y - n) with
+    | Some k => match other_end k x with Some q => hedge_count ts x q | None => 0 end
+    | None => 0
+    end.
+Proof. exact hedge_old_new. Qed.
+Print Assumptions C11_half_edges_of_children.
+
+(* the hypothesis [simplicial] cannot be dropped: the tetrahedron + pillow mesh of finding F25 is closed, manifold and oriented,
+   its refinement is neither manifold nor oriented *)
+Theorem C11_topology_unchanged_without_simplicial_refuted :
+  exists ts n, Forall distinct_tri ts /\ in_range n ts /\ is_manifold ts = true /\ is_oriented ts = true /\
+    is_manifold (flat_map (children n (edge_list ts)) ts) = false /\ is_oriented (flat_map (children n (edge_list ts)) ts) = false.
+Proof. exact pillow_refinement_refuted. Qed.
+Print Assumptions C11_topology_unchanged_without_simplicial_refuted.
+
+(* the hypotheses hold for concrete meshes, e.g. the tetrahedron surface with one flipped triangle *)
+Example C11_topology_hypotheses_are_satisfiable : Forall distinct_tri c11_tetra /\ in_range 4 c11_tetra /\ simplicial c11_tetra.
+Proof. exact topology_hypotheses_satisfiable. Qed.
